@@ -15,7 +15,7 @@ ASSUMPTIONS = [
     'one path string per file: depfile/rspfile bindings are not canonicalized by ninja; two spellings of one file are two Remove() attempts',
     'depfile/rspfile paths are not also nodes of the graph (aux_paths_disjoint) for the no-source/no-phony/generator claims',
     'dyndep files that exist at clean time are valid for the manifest (a failing DyndepLoader::LoadDyndeps leaves a partially updated graph)',
-    'dry-run reports are observed through cleaned_files_count() only (the harness runs the Cleaner QUIET); the real run that follows must remove that many']
+    'dry-run reports are observed through cleaned_files_count() and the attempted set removed_ (`ev clean-attempted`; the harness runs the Cleaner QUIET); the real run that follows must remove that many']
 
 def run(ctx):
     if ctx.replay:
@@ -32,8 +32,7 @@ def run(ctx):
     rc, tr, err, out = ec.run_hists(hists)
     crashes = getattr(ec.run_hists, 'crashes', [])
     for hh, crc, cerr in crashes:
-        if not getattr(hh, 'cyclic', False):
-            ctx.violation('engine-crash', hh.text(), 'ninja died (rc=%s) in scenario %s: %s' % (crc, hh.sid, cerr.replace('\n', ' ')[-300:]))
+        ctx.violation('engine-crash', hh.text(), 'ninja died (rc=%s) in scenario %s: %s' % (crc, hh.sid, cerr.replace('\n', ' ')[-300:]))
     rep = cm.check_hists(hists, tr, crashes, known)
     for h, t in rep.corr[:5]:
         ctx.corr_broken.append('Cleaner model and implementation differ: ' + t)
